@@ -240,6 +240,9 @@ func runScript(t *testing.T, tr *Tracer, sc *Script) {
 				return errors.New("scripted targeter failure")
 			}
 			tgt.Method, tgt.URL = "GET", "http://verif.invalid/"
+			if sc.ID%3 == 0 {
+				tgt.Method = "" // net/http reads an empty method as GET
+			}
 			return nil
 		})
 
